@@ -676,11 +676,44 @@ pub fn set_speed_run_opt(ctx: &mut Ctx, rng: &mut Rng, interval: Option<usize>, 
         Ok(t) => t,
         Err(_) => return,
     };
-    let dist = b.route_len - b.spec.length - 5.0;
+    // where the front starts: at the train's length (default), further along the route (30 %), or - on routes
+    // with exactly representable lengths - at an even number of metres before the route end, to be driven to
+    // the end exactly by a trace of small integer speeds (positions then hit segment boundaries and the
+    // route end bit-exactly)
+    let exact_route = (b.route_len * 2.0).fract() == 0.0 && b.route_len < 1.0e6;
+    let exact_end = consistent_init && !inject_negative && exact_route && rng.chance(0.25) && b.route_len - b.spec.length > 30.0;
+    let start_extra = if exact_end {
+        let dmax = ((b.route_len - b.spec.length - 2.0).min(800.0) / 2.0).floor() * 2.0;
+        let d = (rng.usize(5, (dmax / 2.0) as usize) * 2) as f64;
+        Some(b.route_len - d - b.spec.length)
+    } else if consistent_init && rng.chance(0.3) && b.route_len - b.spec.length > 60.0 {
+        Some(rng.range(0.0, (b.route_len - b.spec.length - 50.0).min(5000.0)))
+    } else {
+        None
+    };
+    let start = b.spec.length + start_extra.unwrap_or(0.0);
+    let dist = b.route_len - start - 5.0;
     let steps = rng.usize(20, if ctx.prop == "C19" { 300 } else { 900 });
-    let (time, mut speed) = gt::speed_trace(rng, dist, tp.speed_max.value.min(35.0), steps);
+    let (time, mut speed) = if exact_end {
+        // 0 -> 2 -> 4 m/s, cruise at 4, 4 -> 2, cruise at 2 for the remainder, 2 -> 0: all displacements are integers
+        let d = b.route_len - start;
+        let r = d - 8.0;
+        let (q4, rem) = ((r / 4.0).floor() as usize, (r % 4.0) as usize);
+        let mut v = vec![0.0, 2.0, 4.0];
+        v.extend(std::iter::repeat(4.0).take(q4));
+        v.push(2.0);
+        v.extend(std::iter::repeat(2.0).take(rem / 2));
+        v.push(0.0);
+        ctx.count("obs.traces_ending_exactly_at_the_route_end");
+        ((0..v.len()).map(|k| k as f64).collect(), v)
+    } else {
+        gt::speed_trace(rng, dist, tp.speed_max.value.min(35.0), steps)
+    };
+    if start_extra.is_some() {
+        ctx.count("obs.runs_starting_part_way_along_the_route");
+    }
     // the initial train state must agree with the first trace entry (speed before the first step)
-    let init = if consistent_init { Some(InitTrainState::new(Some(uc::S * time[0]), None, Some(uc::MPS * speed[0]))) } else { None };
+    let init = if consistent_init { Some(InitTrainState::new(Some(uc::S * time[0]), start_extra.map(|_| uc::M * start), Some(uc::MPS * speed[0]))) } else { None };
     if !consistent_init && speed[0] > 0.0 {
         obs(ctx, "C14", "obs.rolling_start_on_default_initial_state");
     }
@@ -810,7 +843,20 @@ pub fn speed_limit_run(ctx: &mut Ctx, rng: &mut Rng, interval: Option<usize>, ex
     };
     let lm = gt::location_map(&b.net);
     let (o, dname) = if b.reverse { ("Br", "Ar") } else { ("A", "B") };
-    let init = if rng.chance(0.3) { Some(InitTrainState::new(Some(uc::S * rng.range(0.0, 5000.0)), None, None)) } else { None };
+    // initial time and (inside the first segment) an initial front position further along than the train's length
+    let first_len = b.net.links[b.route[0].idx()].length.value;
+    let room = first_len - b.spec.length - 20.0;
+    let init = if rng.chance(0.3) {
+        let off = if room > 5.0 && rng.chance(0.5) {
+            obs(ctx, "C12", "obs.speed_limited_runs_starting_part_way_into_the_first_segment");
+            Some(uc::M * (b.spec.length + rng.range(1.0, room)))
+        } else {
+            None
+        };
+        Some(InitTrainState::new(Some(uc::S * rng.range(0.0, 5000.0)), off, None))
+    } else {
+        None
+    };
     let builder = TrainSimBuilder::new("t".into(), b.spec.config.clone(), b.spec.consist.clone(), Some(o.into()), Some(dname.into()), init);
     let sim_days = *rng.pick(&[None, Some(1), Some(7), Some(365)]);
     let scenario_year = *rng.pick(&[None, Some(2025), Some(2040)]);
